@@ -92,9 +92,13 @@ def jobs(tier, seed=0):
 
     t_end = time.time() + (150 if quick else 420)      # no single exploration may run away (recorded as not exhaustive)
 
+    heavy = ("2x2 cover w", "joint", "1->3", "3->1 w", "Crossbar 2x2", "3x3", "3x2", "2x3")
+    PRIO = {}
+
     def A(name, mk, alpha, limit=LIM, **kw):
         J.append(Job("A", _checked(lambda: mk(name=name, alphabet=alpha(), limit=limit, **kw), seed),
                      max_states=cap, deadline=t_end))
+        PRIO[id(J[-1])] = 0 if any(h in name for h in heavy) else 1     # long explorations are started first
 
     def B(name, mk, cycles=None, **kw):
         J.append(Job("B", _checked(lambda: mk(name=name, **kw), seed), cycles=cycles or (3000 if quick else 30000),
@@ -213,6 +217,7 @@ def jobs(tier, seed=0):
     B("AXICrossbar 2x2 overlap walk", lambda **k: make_xbar(2, OVERLAP, full=True, domain=False, monitored=False, env=WalkEnv,
                                                            alphabet=_joint_alphabet(2, 2, (0, 2), True, seed, 2000), **k),
       cycles=6000 if quick else 60000)
+    J.sort(key=lambda j: PRIO.get(id(j), 2))        # stable: heavy mode-A jobs, other mode-A jobs, mode-B jobs
     return J
 
 
